@@ -29,7 +29,7 @@ ASSUMPTIONS = [
     "the direct calls use float64 / datetime64[ns] arrays; carrier independence is C15's subject",
 ]
 FRONTENDS = ["pandas", "numpy_dict", "numpy_array", "xarray_coord", "xarray_var", "netcdf", "qcconfig", "netcdf_path",
-             "xarray_path", "xarray_coord_axes"]
+             "xarray_path", "xarray_coord_axes", "xarray_other_dim"]
 NEIGHBOUR = {"spike_test", "rate_of_change_test", "flat_line_test", "attenuated_signal_test", "density_inversion_test",
              "speed_test", "pressure_increasing_test", "location_test"}
 
@@ -59,7 +59,8 @@ def stream_case(draw, tier="quick"):
     if nctx == 3 and draw(st.integers(0, 3)) == 0:
         ctxs[2]["window"] = ctxs[0]["window"]  # the same context again, not adjacent in the list
     fes = draw(st.lists(st.sampled_from(FRONTENDS), min_size=2, max_size=4, unique=True))
-    return {"table": tbl, "contexts": ctxs, "style": draw(st.sampled_from(["iso", "datetime"])), "frontends": fes}
+    return {"table": tbl, "contexts": ctxs, "style": draw(st.sampled_from(["iso", "datetime"])), "frontends": fes,
+            "qc_tinp": draw(st.sampled_from(["ndarray", "ndarray", "list_datetime", "list_timestamp", "series", "dtindex"]))}
 
 
 def xarray_known_mask(tbl, w, layout, deviations):
@@ -107,7 +108,7 @@ def expected(case, single_col=None, xarray_layout=None, deviations=None):
                     if test == "vf_probe_min":
                         rcp["min"] = True
                     else:
-                        rcp["tinp"] = [tbl["t"][i] for i in sel] if tbl["t"] is not None else None
+                        rcp["tinp"] = [sg.tnorm(tbl["t"][i]) for i in sel] if tbl["t"] is not None else None
                         rcp["zinp"] = [tbl["axes"]["z"][i] for i in sel] if "z" in tbl["axes"] else None
                         rcp["lat"] = [tbl["axes"]["lat"][i] for i in sel] if "lat" in tbl["axes"] else None
                         rcp["lon"] = [tbl["axes"]["lon"][i] for i in sel] if "lon" in tbl["axes"] else None
@@ -157,8 +158,9 @@ def run_frontend(fe, case):
         if fe == "numpy_array":
             first = next(iter(tbl["cols"]))
             return observe(list(NumpyStream(inp=sg.np_col(tbl["cols"][first]), time=tarr, **axes).run(Config(cfg)))), first
-        if fe in ("xarray_coord", "xarray_var", "xarray_coord_axes"):
-            ds = sg.make_xr(tbl, {"xarray_coord": "coord", "xarray_var": "var", "xarray_coord_axes": "coord_axes"}[fe])
+        if fe in ("xarray_coord", "xarray_var", "xarray_coord_axes", "xarray_other_dim"):
+            ds = sg.make_xr(tbl, {"xarray_coord": "coord", "xarray_var": "var", "xarray_coord_axes": "coord_axes",
+                                  "xarray_other_dim": "other_dim"}[fe])
             return observe(list(XarrayStream(ds).run(Config(cfg)))), None
         if fe == "netcdf":
             ds = sg.make_xr(tbl, "coord")
@@ -172,7 +174,10 @@ def run_frontend(fe, case):
             d = tempfile.mkdtemp(prefix="vf_c05_")
             path = os.path.join(d, "data.nc")
             try:
-                enc = {"time": {"units": "seconds since 1970-01-01 00:00:00", "dtype": "float64"}} if tbl["t"] is not None else {}
+                # NetcdfStream reads raw numbers and takes them for epoch seconds; XarrayStream decodes the units (whole
+                # milliseconds keep the decoding exact for sub-second instants)
+                unit = "seconds"
+                enc = {"time": {"units": f"{unit} since 1970-01-01 00:00:00", "dtype": "float64"}} if tbl["t"] is not None else {}
                 ds.to_netcdf(path, engine="scipy", encoding=enc)
                 cls = NetcdfStream if fe == "netcdf_path" else XarrayStream
                 return observe(list(cls(path).run(Config(cfg)))), None
@@ -188,6 +193,10 @@ def applicable(fe, case):
         return True
     if tbl.get("index", "default") != "default":
         pass  # the index only exists for pandas; the other front ends see the same rows
+    if fe == "xarray_path" and tbl["t"] is not None and any(float(v) != int(v) for v in tbl["t"]):
+        # xarray's own decoding of float time units is not exact to the nanosecond for sub-second instants; that is
+        # the file round trip's business, not ioos_qc's
+        return False
     if fe == "qcconfig":
         return len(case["contexts"]) == 1 and len(case["contexts"][0]["streams"]) == 1 and \
             next(iter(case["contexts"][0]["streams"])) in tbl["cols"]
@@ -205,6 +214,12 @@ def check_qcconfig(case, rec, info):
     kw = {"inp": sg.np_col(tbl["cols"][sid])}
     if tbl["t"] is not None:
         kw["tinp"] = sg.np_time(tbl["t"])
+        how = case.get("qc_tinp", "ndarray")
+        if how != "ndarray":
+            import pandas as pd
+            ts = pd.DatetimeIndex(kw["tinp"])
+            kw["tinp"] = {"list_datetime": [x.to_pydatetime() for x in ts], "list_timestamp": list(ts), "series": pd.Series(ts),
+                          "dtindex": ts}[how]
     if "z" in tbl["axes"]:
         kw["zinp"] = sg.np_col(tbl["axes"]["z"])
     if "lat" in tbl["axes"]:
@@ -267,6 +282,8 @@ def check_stream(case, rec):
                           "neighbour_test") if info[k]] + [f"index={info['index']}"] + [f"fe={f}" for f in case["frontends"]]
     if not info["has_time"]:
         labels.append("no_time_column")
+    elif any(float(v) != int(v) for v in case["table"]["t"]):
+        labels.append("subsecond_times")
     rec.note(nontriv, labels)
     for fe in case["frontends"]:
         if not applicable(fe, case):
@@ -277,12 +294,15 @@ def check_stream(case, rec):
         site = {"pandas": "PandasStream.run", "numpy_dict": "NumpyStream.run(dict)", "numpy_array": "NumpyStream.run(array)",
                 "xarray_coord": "XarrayStream.run", "xarray_var": "XarrayStream.run(time as data variable)",
                 "netcdf": "NetcdfStream.run", "netcdf_path": "NetcdfStream.run(path)", "xarray_path": "XarrayStream.run",
-                "xarray_coord_axes": "XarrayStream.run"}[fe]
+                "xarray_coord_axes": "XarrayStream.run", "xarray_other_dim": "XarrayStream.run(axes on another dimension)"}[fe]
         del sg.PROBE_LOG[:]
         try:
             got, single = run_frontend(fe, case)
         except Exception as e:
-            rec.fail(site, f"raised {type(e).__name__}: {str(e)[:200]}", raised=True, exc=type(e).__name__, frontend=fe, **info)
+            two_sided = any(w is not None and w.get("starting") is not None and w.get("ending") is not None
+                            for w in (c.get("window") for c in case["contexts"]))
+            rec.fail(site, f"raised {type(e).__name__}: {str(e)[:200]}", raised=True, exc=type(e).__name__, frontend=fe,
+                     two_sided_window=two_sided, has_axes=bool(case["table"]["axes"]), **info)
             continue
         log = [dict(p) for p in sg.PROBE_LOG]
         want, probes = expected(case, single)
@@ -296,7 +316,7 @@ def check_stream(case, rec):
             kind = "count" if len(got) != len(want) else "content"
             sub_differs = sorted(canon(g["mask"]) for g in got) != sorted(canon(w["mask"]) for w in want)
             explained = []
-            if fe in ("xarray_coord", "xarray_var", "xarray_path", "xarray_coord_axes") and sub_differs:
+            if fe in ("xarray_coord", "xarray_var", "xarray_path", "xarray_coord_axes", "xarray_other_dim") and sub_differs:
                 dev = set()
                 alt, _ = expected(case, single, "var" if fe == "xarray_var" else "coord", dev)
                 if ms(alt) == ms(got):
